@@ -431,6 +431,18 @@ def rule_cleanup(F, R, which=("G1", "G2", "G3", "O1")):
                     if any(r[0] == "call" and is_reader(c.term(r[1])) for r in cs.roots):
                         via = True
             guards.append({"s": s, "labels": labs, "lists": gl, "reads": gr, "via_collection": via, "slice": gs})
+        # a predicate of a filter through which the deleted name passed guards the deletion as well
+        for (pb, pop) in sorted(ns.predicates.items()):
+            gs = fl.slice_operand(pop, stop=stop)
+            gl = {r[1] for r in gs.roots if r[0] == "call" and is_list(c.term(r[1]))}
+            gr = {r[1] for r in gs.roots if r[0] == "call" and is_reader(c.term(r[1]))}
+            via = False
+            for l in gs.locals:
+                if COLL.search(fl.local_ty(l)):
+                    cs = fl.slice_local(l, stop=stop)
+                    if any(r[0] == "call" and is_reader(c.term(r[1])) for r in cs.roots):
+                        via = True
+            guards.append({"s": pb, "labels": [], "lists": gl, "reads": gr, "via_collection": via, "slice": gs, "predicate": True})
         info.append({"bb": di, "t": dt, "name_lists": nl, "name_reads": nr, "guards": guards, "name_slice": ns})
 
     # ---- O1 ---------------------------------------------------------------------------
@@ -441,7 +453,7 @@ def rule_cleanup(F, R, which=("G1", "G2", "G3", "O1")):
                 continue  # the age-based pass walks the chain itself
             positive = False
             for g in d["guards"]:
-                if not g["via_collection"]:
+                if not g["via_collection"] or g.get("predicate"):
                     continue
                 t = c.term(g["s"])
                 # positive: the del is on the Some-edge of an Option from a lookup, or on the true edge of contains/contains_key
@@ -575,6 +587,8 @@ def rule_cleanup(F, R, which=("G1", "G2", "G3", "O1")):
 
 def is_opt_discr(c, fl, s):
     t = c.term(s)
+    if t["k"] != "switch":
+        return False
     p = op_place(t["o"])
     d = local_def(fl, p["l"]) if p else None
     if d and d[0] == "discr":
